@@ -88,3 +88,36 @@ Proof.
   intros Hl Hp Ht. destruct (polyak_list_total tau _ _ Hl) as [r Hr]. cbn [pair_step snd fst]. rewrite Hr.
   eapply polyak_list_nth; eauto.
 Qed.
+
+(* ------------------------------------------------------------------ parameters and running statistics at the update instants *)
+Lemma polyak_tau_eq1 stau p t : stau == 1 -> polyak stau p t == p.
+Proof. intros H. unfold polyak. rewrite H. ring. Qed.
+
+Lemma unit_no_update ptau stau s np ns :
+  tg_params (unit_step ptau stau s (np, ns, false)) = tg_params s /\ tg_stats (unit_step ptau stau s (np, ns, false)) = tg_stats s.
+Proof. split; reflexivity. Qed.
+
+Lemma unit_update ptau stau s np ns i :
+  on_params (unit_step ptau stau s (np, ns, true)) = np /\ on_stats (unit_step ptau stau s (np, ns, true)) = ns /\
+  (forall p t, length np = length (tg_params s) -> nth_error np i = Some p -> nth_error (tg_params s) i = Some t ->
+     exists x, nth_error (tg_params (unit_step ptau stau s (np, ns, true))) i = Some x /\ x == polyak ptau p t) /\
+  (forall p t, stau == 1 -> length ns = length (tg_stats s) -> nth_error ns i = Some p -> nth_error (tg_stats s) i = Some t ->
+     exists x, nth_error (tg_stats (unit_step ptau stau s (np, ns, true))) i = Some x /\ x == p).
+Proof.
+  split; [reflexivity|]. split; [reflexivity|]. split.
+  - intros p t Hl Hp Ht. cbn [unit_step target_update tg_params on_params]. unfold polyak_or_keep.
+    destruct (polyak_list_total ptau _ _ Hl) as [r Hr]. rewrite Hr. eapply polyak_list_nth; eauto.
+  - intros p t Hs Hl Hp Ht. cbn [unit_step target_update tg_stats on_stats]. unfold polyak_or_keep.
+    destruct (polyak_list_total stau _ _ Hl) as [r Hr]. rewrite Hr.
+    destruct (polyak_list_nth stau _ _ _ _ _ _ Hr Hp Ht) as (x & Hx & E). exists x. split; [exact Hx|].
+    rewrite E. apply polyak_tau_eq1. exact Hs.
+Qed.
+
+(* between two update instants nothing writes the target *)
+Lemma units_no_update ptau stau us : forall s, forallb (fun u => negb (snd u)) us = true ->
+  tg_params (units_run ptau stau s us) = tg_params s /\ tg_stats (units_run ptau stau s us) = tg_stats s.
+Proof.
+  unfold units_run. induction us as [|[[np ns] fl] us IH]; intros s H; cbn [fold_left]; [split; reflexivity|].
+  cbn [forallb snd] in H. apply andb_prop in H. destruct H as [Hf Hr]. destruct fl; [discriminate|].
+  destruct (IH (unit_step ptau stau s (np, ns, false)) Hr) as (A & B). rewrite A, B. split; reflexivity.
+Qed.
